@@ -42,8 +42,9 @@
 (***************************************************************************)
 EXTENDS Integers, Sequences, FiniteSets, TLC
 
-CONSTANTS Kind,       \* "int" | "uint" | "comp" | "float" | "entity": the family of cases of this run
-          Widths,     \* set of integer widths in bits    (int, uint, comp)
+CONSTANTS Kinds,      \* subset of {"int", "uint", "comp", "float", "entity"}: the families of cases of this run
+          Widths,     \* set of integer widths in bits    (int, uint)
+          CompWidths, \* set of component widths in bits  (comp)
           E, M,       \* exponent and mantissa widths     (float)
           AsWritten,  \* BOOLEAN, see above               (float)
           Alphabet,   \* byte values of entity contents   (entity)
@@ -246,15 +247,15 @@ Tuples(n) == UNION { [1..k -> Values] : k \in 0..n }
 ---------------------------------------------------------------------------
 \* (the cases are enumerated by quantifiers, not as one big set: TLC would build such a constant set eagerly)
 Init ==
-  \/ Kind = "int" /\ \E w \in Widths : \E a, b \in IntDom(w) : c = IntCase(w, a, b)
-  \/ Kind = "uint" /\ \E w \in Widths : \E a, b \in UDom(w) : c = UintCase(w, a, b)
-  \/ Kind = "comp" /\ \E w \in Widths : \E a1, a2, b1, b2 \in IntDom(w) : c = CompCase(w, a1, a2, b1, b2)
-  \/ Kind = "float" /\ \E a, b \in Bits : c = FloatCase(a, b)
-  \/ Kind = "entity" /\ \E s \in Subjects : c = [k |-> "entity", subj |-> s, vals |-> <<>>, buf |-> MarshalSeries(s, <<>>)]
+  \/ "int" \in Kinds /\ \E w \in Widths : \E a, b \in IntDom(w) : c = IntCase(w, a, b)
+  \/ "uint" \in Kinds /\ \E w \in Widths : \E a, b \in UDom(w) : c = UintCase(w, a, b)
+  \/ "comp" \in Kinds /\ \E w \in CompWidths : \E a1, a2, b1, b2 \in IntDom(w) : c = CompCase(w, a1, a2, b1, b2)
+  \/ "float" \in Kinds /\ \E a, b \in Bits : c = FloatCase(a, b)
+  \/ "entity" \in Kinds /\ \E s \in Subjects : c = [k |-> "entity", subj |-> s, vals |-> <<>>, buf |-> MarshalSeries(s, <<>>)]
 
 \* MarshalTagValues(dest, tags) appends to the buffer: one more entity value
 AppendValue(v) ==
-  /\ Kind = "entity"
+  /\ c.k = "entity"
   /\ Len(c.vals) < MaxVals
   /\ c' = [c EXCEPT !.vals = Append(@, v), !.buf = @ \o MarshalTV(v, FALSE, TRUE)]
 
